@@ -103,6 +103,7 @@ type Interp struct {
 	guardOn       bool
 	guardCells    map[*Cell]bool
 	guardMu       *Cell
+	guardMaps     map[*MapObj]bool
 	shuffleSwaps  int
 	divDefs       map[[3]int][2]*Term
 	divSeq        int
@@ -1551,6 +1552,9 @@ func (in *Interp) lookup(fr *Frame, x *ssa.Lookup) Value {
 		return bs[i]
 	}
 	m := base.(MapV)
+	if in.guardOn && m.m != nil && in.guardMaps[m.m] {
+		in.checkGuard("read")
+	}
 	key := fr.get(in, x.Index)
 	vt := x.X.Type().Underlying().(*types.Map).Elem()
 	zero := in.zero(vt)
@@ -1655,6 +1659,9 @@ func (in *Interp) findKey(m *MapObj, key Value) int {
 }
 
 func (in *Interp) mapUpdate(m *MapObj, key, val Value) {
+	if in.guardOn && in.guardMaps[m] {
+		in.checkGuard("write")
+	}
 	in.journalMap(m)
 	i := in.findKey(m, key)
 	if i >= 0 {
@@ -1679,6 +1686,9 @@ func (in *Interp) rangeStart(fr *Frame, x *ssa.Range) Value {
 	switch b := fr.get(in, x.X).(type) {
 	case MapV:
 		it := &mapIter{}
+		if in.guardOn && b.m != nil && in.guardMaps[b.m] {
+			in.checkGuard("read")
+		}
 		if b.m != nil {
 			n := len(b.m.keys)
 			order := in.mapIterOrder(n)
